@@ -255,8 +255,15 @@ fn observe_valid(id: &str, kind: &str, bytes: &[u8], w: &mut dyn Write) {
             // "... and drives a framework identically": the parsed machine and the original one through the
             // same scripted history with the same random stream (only for machines small enough to be quick)
             if m.states.len() <= 64 {
-                let d = catch_unwind(AssertUnwindSafe(|| drive_actions(&m) == drive_actions(&m2)));
-                let _ = writeln!(w, "dr {}", match d { Ok(true) => "same", Ok(false) => "diff", Err(_) => "panic" });
+                let (tx, rx) = std::sync::mpsc::channel::<&'static str>();
+                let (ma, mb) = (m.clone(), m2.clone());
+                let _ = std::thread::Builder::new().stack_size(32 << 20).spawn(move || {
+                    let d = catch_unwind(AssertUnwindSafe(|| drive_actions(&ma) == drive_actions(&mb)));
+                    let _ = tx.send(match d { Ok(true) => "same", Ok(false) => "diff", Err(_) => "panic" });
+                });
+                // supervised: an endless loop inside the framework is a result ("panic" class), not a stuck check
+                let verdict = rx.recv_timeout(std::time::Duration::from_secs(15)).unwrap_or("panic");
+                let _ = writeln!(w, "dr {}", verdict);
             }
         }
         Ok(Err(e)) => {
